@@ -285,6 +285,118 @@ def _t_small_idioms(srcs):
             R().visit(tree)
 
 
+def _t_flip_comparisons(srcs):
+    """every ordered comparison with its operands swapped: a < b -> b > a, a <= b -> b >= a (and the reverse); == / != with a literal 0 on the right
+    become literal-first (x == 0 -> 0 == x is left alone: only ordered comparisons are flipped, they have no short-circuit / evaluation-order effect
+    on the names and attribute reads they are applied to here)"""
+    import ast
+    FLIP = {ast.Lt: ast.Gt, ast.Gt: ast.Lt, ast.LtE: ast.GtE, ast.GtE: ast.LtE}
+
+    def pure(e):
+        return all(isinstance(x, (ast.Name, ast.Constant, ast.Attribute, ast.Load, ast.BinOp, ast.operator, ast.UnaryOp, ast.unaryop, ast.Subscript, ast.Tuple, ast.Slice)) or
+                   (isinstance(x, ast.Call) and isinstance(x.func, ast.Name) and x.func.id == "len") for x in ast.walk(e))
+
+    class R(ast.NodeTransformer):
+        def visit_Compare(self, node):
+            self.generic_visit(node)
+            if len(node.ops) == 1 and type(node.ops[0]) in FLIP and pure(node.left) and pure(node.comparators[0]):
+                return ast.copy_location(ast.Compare(left=node.comparators[0], ops=[FLIP[type(node.ops[0])]()], comparators=[node.left]), node)
+            return node
+    for pth, tree in srcs.items():
+        R().visit(tree)
+
+
+def _t_else_after_exit(srcs):
+    """`if c: ...; return / raise / continue / break  else: REST` -> the same `if` followed by REST as straight-line code"""
+    import ast
+
+    def fix(stmts):
+        out = []
+        for st in stmts:
+            for fld in ("body", "orelse", "finalbody"):
+                sub = getattr(st, fld, None)
+                if isinstance(sub, list) and sub and isinstance(sub[0], ast.stmt):
+                    setattr(st, fld, fix(sub))
+            for h in getattr(st, "handlers", []) or []:
+                h.body = fix(h.body)
+            if isinstance(st, ast.If) and st.orelse and st.body and isinstance(st.body[-1], (ast.Return, ast.Raise, ast.Continue, ast.Break)) and \
+                    not (len(st.orelse) == 1 and isinstance(st.orelse[0], ast.If)):
+                rest = st.orelse
+                st.orelse = []
+                out.append(st)
+                out.extend(rest)
+            else:
+                out.append(st)
+        return out
+    for pth, tree in srcs.items():
+        for n in ast.walk(tree):
+            if isinstance(n, (ast.FunctionDef, ast.AsyncFunctionDef)):
+                n.body = fix(n.body)
+
+
+def _t_comp_to_loop(srcs):
+    """`name = [elt for t in it if c]` (one generator, a statement of its own inside a function) -> `name = []` + a for-loop with append;
+    `dict((k, v) for ...)` -> `{k: v for ...}`"""
+    import ast
+
+    class D(ast.NodeTransformer):
+        def visit_Call(self, node):
+            self.generic_visit(node)
+            if isinstance(node.func, ast.Name) and node.func.id == "dict" and len(node.args) == 1 and not node.keywords and isinstance(node.args[0], ast.GeneratorExp) and \
+                    isinstance(node.args[0].elt, ast.Tuple) and len(node.args[0].elt.elts) == 2:
+                g = node.args[0]
+                return ast.copy_location(ast.DictComp(key=g.elt.elts[0], value=g.elt.elts[1], generators=g.generators), node)
+            return node
+
+    def fix(stmts, locals_):
+        out = []
+        for st in stmts:
+            for fld in ("body", "orelse", "finalbody"):
+                sub = getattr(st, fld, None)
+                if isinstance(sub, list) and sub and isinstance(sub[0], ast.stmt) and not isinstance(st, (ast.FunctionDef, ast.AsyncFunctionDef, ast.ClassDef)):
+                    setattr(st, fld, fix(sub, locals_))
+            if isinstance(st, ast.Assign) and len(st.targets) == 1 and isinstance(st.targets[0], ast.Name) and isinstance(st.value, ast.ListComp) and len(st.value.generators) == 1 \
+                    and not st.value.generators[0].is_async:
+                g = st.value.generators[0]
+                tnames = {x.id for x in ast.walk(g.target) if isinstance(x, ast.Name)}
+                used_in_iter = {x.id for x in ast.walk(g.iter) if isinstance(x, ast.Name)}
+                nm = st.targets[0].id
+                # the comprehension's own variables must not clash with anything else in the function, nor the list name occur in its own definition
+                if not (tnames & locals_) and nm not in used_in_iter and nm not in {x.id for x in ast.walk(st.value) if isinstance(x, ast.Name)}:
+                    body = [ast.Expr(ast.Call(func=ast.Attribute(value=ast.Name(nm, ast.Load()), attr="append", ctx=ast.Load()), args=[st.value.elt], keywords=[]))]
+                    for c in reversed(g.ifs):
+                        body = [ast.If(test=c, body=body, orelse=[])]
+                    out.append(ast.copy_location(ast.Assign(targets=[ast.Name(nm, ast.Store())], value=ast.List(elts=[], ctx=ast.Load())), st))
+                    out.append(ast.copy_location(ast.For(target=g.target, iter=g.iter, body=body, orelse=[]), st))
+                    continue
+            out.append(st)
+        return out
+    for pth, tree in srcs.items():
+        D().visit(tree)
+        for n in ast.walk(tree):
+            if isinstance(n, (ast.FunctionDef, ast.AsyncFunctionDef)):
+                own = set()
+                for x in ast.walk(n):
+                    if isinstance(x, ast.Name) and not isinstance(x.ctx, ast.Load):
+                        own.add(x.id)
+                    if isinstance(x, ast.arg):
+                        own.add(x.arg)
+                # names bound only inside comprehensions are not function locals
+                comp_only = set()
+                for x in ast.walk(n):
+                    if isinstance(x, (ast.ListComp, ast.SetComp, ast.DictComp, ast.GeneratorExp)):
+                        for g in x.generators:
+                            comp_only |= {y.id for y in ast.walk(g.target) if isinstance(y, ast.Name)}
+                outside = set()
+                for x in ast.walk(n):
+                    if isinstance(x, (ast.For, ast.Assign, ast.AugAssign, ast.With)):
+                        tg = [x.target] if isinstance(x, (ast.For, ast.AugAssign)) else (x.targets if isinstance(x, ast.Assign) else [i.optional_vars for i in x.items if i.optional_vars is not None])
+                        for t_ in tg:
+                            outside |= {y.id for y in ast.walk(t_) if isinstance(y, ast.Name)}
+                outside |= {a.arg for a in ast.walk(n) if isinstance(a, ast.arg)}
+                n.body = fix(n.body, outside)
+
+
 def _t_np_operators(srcs):
     """operators spelled as numpy functions where that is the same for every operand the code can see: a @ b -> np.matmul(a, b), np.eye(n) -> np.identity(n)"""
     import ast
@@ -568,7 +680,7 @@ def _t_accept_lists(srcs):
                         n.body[k:k] = ast.parse("if not isinstance(%s, np.ndarray):\n    %s = np.array(%s)\n" % (a.arg, a.arg, a.arg)).body
 
 
-TREE_TRANSFORMS = {"@coerce_params": _t_coerce_params, "@accept_lists": _t_accept_lists, "@early_exit": _t_early_exit, "@numpy_alias": _t_numpy_alias, "@kwargs_calls": _t_kwargs_calls, "@strip_docs_annotate": _t_strip_docs_annotate, "@logging": _t_logging, "@traced": _t_traced, "@kwonly": _t_kwonly, "@extra_param": _t_extra_param, "@try_reraise": _t_try_reraise, "@np_functions": _t_np_functions, "@small_idioms": _t_small_idioms, "@np_operators": _t_np_operators, "@private_module": _t_private_module, "@swap_branches": _t_swap_branches, "@name_conditions": _t_name_conditions, "@ternary_to_if": _t_ternary_to_if,
+TREE_TRANSFORMS = {"@coerce_params": _t_coerce_params, "@accept_lists": _t_accept_lists, "@early_exit": _t_early_exit, "@numpy_alias": _t_numpy_alias, "@kwargs_calls": _t_kwargs_calls, "@strip_docs_annotate": _t_strip_docs_annotate, "@logging": _t_logging, "@traced": _t_traced, "@kwonly": _t_kwonly, "@extra_param": _t_extra_param, "@try_reraise": _t_try_reraise, "@np_functions": _t_np_functions, "@small_idioms": _t_small_idioms, "@flip_comparisons": _t_flip_comparisons, "@else_after_exit": _t_else_after_exit, "@comp_to_loop": _t_comp_to_loop, "@np_operators": _t_np_operators, "@private_module": _t_private_module, "@swap_branches": _t_swap_branches, "@name_conditions": _t_name_conditions, "@ternary_to_if": _t_ternary_to_if,
                    "@shim": _t_shim}
 
 
